@@ -6,6 +6,7 @@
    pairwise distinct. *)
 From Flyt Require Import Pool PoolCorr PoolProofs.
 From Coq Require Import Permutation.
+From Flyt Require Import C12Glue.
 
 (* conservation: at every instant every task for which Submit has run wg.Add(1) is in exactly one
    place — waiting to be sent (its submitter is blocked on a full queue), queued, running on a
@@ -17,10 +18,7 @@ Theorem C12_conservation :
     let s := prun qcap (pinit progs workers) sched in
     Permutation (p_added s) (pending_sends (p_subs s) ++ p_queue s ++ busy_tasks (p_ws s) ++ ends (p_log s)) /\
     p_wg s = length (pending_sends (p_subs s)) + length (p_queue s) + length (busy_tasks (p_ws s)).
-Proof.
-  intros qcap progs workers sched H s.
-  pose proof (prun_inv qcap sched _ (pinit_inv progs workers H)) as I. split; apply I.
-Qed.
+Proof. exact C12_conservation_glue. Qed.
 Print Assumptions C12_conservation.
 
 Theorem C12_exactly_once :
@@ -30,10 +28,7 @@ Theorem C12_exactly_once :
     NoDup (starts (p_log s)) /\ NoDup (ends (p_log s)) /\
     (forall t, In t (starts (p_log s)) -> In t (p_added s)) /\
     (forall t, In t (ends (p_log s)) -> In t (starts (p_log s))).
-Proof.
-  intros qcap progs workers sched H s. apply exactly_once_lemma.
-  apply prun_inv. apply pinit_inv. exact H.
-Qed.
+Proof. exact C12_exactly_once_glue. Qed.
 Print Assumptions C12_exactly_once.
 
 (* Wait returns only when the counter is 0, and then every task added so far, by any submitter,
@@ -46,12 +41,7 @@ Theorem C12_barrier :
     forall j x rest s',
       nth_error (p_subs s) j = Some x -> s_ops x = PWait :: rest -> pstep qcap s (TSub j) = Some s' ->
       Permutation (p_added s) (ends (p_log s)).
-Proof.
-  intros qcap progs workers sched H s j x rest s' Hj Hops Hstep.
-  apply (barrier_lemma s).
-  - apply prun_inv. apply pinit_inv. exact H.
-  - eapply wait_needs_zero; eauto.
-Qed.
+Proof. exact C12_barrier_glue. Qed.
 Print Assumptions C12_barrier.
 
 Theorem C12_blocks_not_drops :
